@@ -346,27 +346,32 @@ ARITH_THEOREMS = {"C08": ["Ru.Gen_blocksRange_spec", "Ru.C08_blocks_gen_eq_page"
                           "Ru.C06_isDifferent_gen"],
                   "C07": ["Ru.Gen_updateUtxosGuards_spec", "Ru.C07_creates_gen", "Ru.C07_slotLive_gen", "Ru.C07_owner_list_gen"],
                   "C02": ["Ru.Gen_updateUtxosGuards_spec", "Ru.C02_index_bound_gen", "Ru.C07_slotLive_gen"],
+                  "C17": ["Neigh.Gen_minGuards_spec", "Neigh.C17_goMin_gen", "Neigh.Gen_selectOutboundsGuards_spec", "Neigh.C17_selectLoop_gen",
+                          "Neigh.Gen_synchronizeGuards_spec", "Neigh.C17_source_gen"],
                   "C11": ["Ru.Gen_addTransactionGuards_spec", "Ru.C11_admitCheck_gen", "Ru.Gen_validateGuards_spec",
                           "Ru.C11_produce_refusals_gen", "Ru.C11_produceLoop_window_gen"]}
 ARITH_MODULE = {"C08": ["Core.Props.C08gen"], "C14": ["Core.Props.C08gen"], "C01": ["Core.Props.C01gen", "Core.Props.Cguards"],
                 "C04": ["Core.Props.Cguards"], "C11": ["Core.Props.Cguards11"], "C06": ["Core.Props.C06guards"],
-                "C07": ["Core.Props.C07guards"], "C02": ["Core.Props.C07guards"]}
+                "C07": ["Core.Props.C07guards"], "C02": ["Core.Props.C07guards"], "C17": ["Neigh.Guards"]}
 # the translation units (sections of ruextract-arith) each property's theorems are about: an untranslatable construct in
 # another unit does not concern the property
 ARITH_SECTIONS = {"C08": ["blocks"], "C14": ["blocks"], "C01": ["fee", "guards:verifyBlock"], "C04": ["guards:AddBlock", "guards:verifyBlock"],
                   "C11": ["guards:addTransaction", "guards:Validate"], "C06": ["guards:Update"], "C07": ["guards:UpdateUtxos"],
-                  "C02": ["guards:UpdateUtxos"]}
+                  "C02": ["guards:UpdateUtxos"], "C17": ["guards:Synchronize", "guards:selectOutbounds", "guards:min"]}
+ARITH_PKG = {"C17": "neigh"}
 ARITH_WHAT = {"C08": "(*Blockchain).Blocks", "C14": "(*Blockchain).Blocks",
               "C01": "(*UtxosRegistry).CalculateFee and the reward guard of (*Blockchain).verifyBlock",
               "C04": "the date guards of (*Blockchain).AddBlock and (*Blockchain).verifyBlock",
               "C11": "the date guards of (*TransactionsPool).addTransaction and (*TransactionsPool).Validate",
               "C06": "the fork-choice conditions of (*Blockchain).Update",
               "C07": "the conditions of (*UtxosRegistry).UpdateUtxos over counts, values and income flags",
-              "C02": "the conditions of (*UtxosRegistry).UpdateUtxos over counts, values and income flags"}
+              "C02": "the conditions of (*UtxosRegistry).UpdateUtxos over counts, values and income flags",
+              "C17": "the integer conditions of (*Neighborhood).Synchronize, selectOutbounds and min"}
 ARITH_SRC = {"C08": ["verification/blockchain.go"], "C14": ["verification/blockchain.go"],
              "C01": ["verification/utxos_registry.go", "verification/blockchain.go"], "C04": ["verification/blockchain.go"],
              "C11": ["validation/transactions_pool.go"], "C06": ["verification/blockchain.go"],
-             "C07": ["verification/utxos_registry.go"], "C02": ["verification/utxos_registry.go"]}
+             "C07": ["verification/utxos_registry.go"], "C02": ["verification/utxos_registry.go"],
+             "C17": ["network/neighborhood.go"]}
 
 
 def arith_tie(prop):
@@ -375,7 +380,9 @@ def arith_tie(prop):
     Returns (generated entry, obligations, failures, theorem entries).  The committed copy is restored afterwards when
     the tree checked is a scratch tree."""
     import hashlib
-    gen = LEAN / "core" / "Core" / "GenBlocks.lean"
+    pkg = ARITH_PKG.get(prop, "core")
+    gen_rel = "Neigh/Gen.lean" if pkg == "neigh" else "Core/GenBlocks.lean"
+    gen = LEAN / pkg / gen_rel
     srcs = [REPO / "validatornode" / "application" / x for x in ARITH_SRC[prop]]
     src = srcs[0]
     mods = ARITH_MODULE[prop]
@@ -386,16 +393,16 @@ def arith_tie(prop):
     if not ok:
         failures.append(failure("tie", f"{prop}/tie/arith/translator-build", "ruextract-arith does not build: " + log[-800:], {}, False))
         return None, [{"name": "translator ruextract-arith builds", "ok": False}], failures, theorems
-    with flock("regen-core-arith"):
+    with flock(f"regen-{pkg}-arith"):
         committed = gen.read_text() if gen.exists() else ""
-        rc, out, err = run([str(binary), "--repo", str(REPO)], timeout=60)
+        rc, out, err = run([str(binary), "--repo", str(REPO)] + (["--group", pkg] if pkg != "core" else []), timeout=60)
         sec_errs = [l.split("SECTION-ERROR ", 1)[1] for l in err.splitlines() if "SECTION-ERROR " in l]
         mine = [e for e in sec_errs if e.split(":", 1)[0] in ARITH_SECTIONS[prop] or
                 any(e.startswith(x + ":") for x in ARITH_SECTIONS[prop])]
         text = out if rc == 0 and not mine else None
         if mine:
             err = "\n".join(mine)
-        generated = {"file": "lean/core/Core/GenBlocks.lean", "from": ", ".join(str(x) for x in srcs),
+        generated = {"file": f"lean/{pkg}/{gen_rel}", "from": ", ".join(str(x) for x in srcs),
                      "source_sha256": hashlib.sha256(b"".join(x.read_bytes() for x in srcs if x.exists())).hexdigest(),
                      "translator": "harness/cmd/ruextract-arith", "regenerated_this_run": text is not None,
                      "identical_to_previous_copy": (text == committed) if text is not None else None}
@@ -412,14 +419,14 @@ def arith_tie(prop):
             if text != committed:
                 gen.write_text(text)
                 wrote = True
-            okb, blog = lake_build(LEAN / "core", mods)
+            okb, blog = lake_build(LEAN / pkg, mods)
             axmap = {}
             if okb:
                 audit_file = WORK / f"Arith-{prop}.lean"
                 audit_file.parent.mkdir(parents=True, exist_ok=True)
                 audit_file.write_text("-- generated by vlib.arith_tie; do not edit\n" + "".join("import " + m + "\n" for m in mods) + "\n" +
                                       "\n".join(f"#print axioms {t}" for t in ARITH_THEOREMS[prop]) + "\n")
-                aok, axmap, alog = audit(LEAN / "core", str(audit_file))
+                aok, axmap, alog = audit(LEAN / pkg, str(audit_file))
             for t in ARITH_THEOREMS[prop]:
                 ent = {"name": t, "axioms": axmap.get(t), "ok": False, "why": ""}
                 if not okb:
@@ -435,14 +442,14 @@ def arith_tie(prop):
             obligations.append({"name": f"theorems of {mod} over the arithmetic of {what} regenerated from the source", "ok": allok})
             if not allok:
                 failures.append(failure(
-                    "proof", f"{prop}/theorem/arith/" + {"C01": "Gen.fee", "C04": "Gen.guards", "C11": "Gen.guards", "C06": "Gen.updateGuards", "C07": "Gen.updateUtxosGuards", "C02": "Gen.updateUtxosGuards"}.get(prop, "Gen.blocksRange"),
+                    "proof", f"{prop}/theorem/arith/" + {"C01": "Gen.fee", "C04": "Gen.guards", "C11": "Gen.guards", "C06": "Gen.updateGuards", "C07": "Gen.updateUtxosGuards", "C02": "Gen.updateUtxosGuards", "C17": "Gen.selectOutboundsGuards"}.get(prop, "Gen.blocksRange"),
                     f"the theorems of {mod} no longer check over the arithmetic of {what} regenerated from the current "
                     f"{', '.join(x.name for x in srcs)}:\n" + text[-2600:] + "\n" + (blog[-1200:] if not okb else ""),
                     {"no_longer_checks": ARITH_THEOREMS[prop], "generated": text, "build_log": blog[-3000:] if not okb else ""}, False))
         finally:
             if wrote and _alt_repo():
                 gen.write_text(committed)
-                lake_build(LEAN / "core", mods)
+                lake_build(LEAN / pkg, mods)
     return generated, obligations, failures, theorems
 
 
